@@ -65,7 +65,7 @@ def run_masks_harness(chk, wd, defsets):
             continue
         if "panic" in o:
             what = "%s panics (%s): %s" % (o.get("stage"), o["panic"]["loc"], o["panic"]["msg"])
-            key = "mask:panic:%s:%s" % (o.get("stage"), o["panic"]["loc"].replace("/repo/", ""))
+            key = "mask:panic:%s:%s" % (o.get("stage"), lib.norm_loc(o["panic"]["loc"]))
         elif "raise_err" in o or "raise_warn" in o:
             what = "decompiling 256 instructions failed/warned: %s" % (o.get("raise_err") or o.get("raise_warn"))
             key = "mask:raise-diagnostic:%s" % d["fam"]
@@ -195,7 +195,7 @@ def run_switch_harness(chk, wd, cases):
         if o is None:
             raise lib.ToolError("harness lost switch case %s" % c["id"])
         if "panic" in o:
-            key = KEY_NESTED if c["finer"] else "switch:panic:%s" % o["panic"]["loc"].replace("/repo/", "")
+            key = KEY_NESTED if c["finer"] else "switch:panic:%s" % lib.norm_loc(o["panic"]["loc"])
             chk.report(key, "compiling `%s` panics at %s: %s" % (" ".join(o["text"].split()), o["panic"]["loc"], o["panic"]["msg"]),
                        {"part": "switch", "case": c, "observed": o})
         elif "rejected" in o:
